@@ -3,7 +3,7 @@ import hashlib, json, os, re, sys, time
 
 VERIF = os.path.dirname(os.path.dirname(os.path.abspath(__file__)))
 EVID = os.environ.get("TLSVERIF_EVID") or os.path.join(VERIF, "evidence")
-KNOWN = os.path.join(VERIF, "known_findings.json")
+KNOWN = os.environ.get("TLSVERIF_KNOWN") or os.path.join(VERIF, "known_findings.json")  # override only for testing the mechanism
 
 
 # --------------------------------------------------------------------------- facts
